@@ -102,6 +102,7 @@ type ptsTo struct {
 	objs    []*ptObject
 	content []int // object -> contents node
 	copyE   [][2]int   // dst ⊇ src
+	fcopyE  [][2]int   // dst ⊇ non-container objects of src (value known to be neither map[string]interface{} nor []interface{})
 	loadE   [][2]int   // dst ⊇ C(pts(src))
 	storeE  [][2]int   // C(pts(dst)) ⊇ src
 	writes  []ptWrite
@@ -241,6 +242,50 @@ func (a *ptsTo) addObj(n int, o objID) bool {
 }
 
 func (a *ptsTo) copy(dst, src int)  { a.copyE = append(a.copyE, [2]int{dst, src}) }
+func (a *ptsTo) fcopy(dst, src int) { a.fcopyE = append(a.fcopyE, [2]int{dst, src}) }
+
+// isContainerObj: the object is (or summarises) a map or a slice. Under the shape assumption A-shape (Maps are
+// JSON/XML-shaped: the only containers are map[string]interface{} and []interface{}), a value that failed the
+// assertions to both container types holds no reference into a Map.
+func (a *ptsTo) isContainerObj(o objID) bool {
+	t := a.objs[o].typ
+	if t == nil {
+		return a.objs[o].kind != "func"
+	}
+	switch t.Underlying().(type) {
+	case *types.Map, *types.Slice, *types.Array:
+		return true
+	case *types.Interface:
+		return a.objs[o].kind == "ext" || a.objs[o].kind == "fresh"
+	}
+	return false
+}
+
+// notContainerAt: v is used in a block dominated by the false edges of comma-ok assertions of v to map[string]interface{} and []interface{}.
+func notContainerAt(v ssa.Value, blk *ssa.BasicBlock) bool {
+	if !isIfaceType(v.Type()) {
+		return false
+	}
+	notMap, notList := false, false
+	for _, g := range dominatingGuards(blk) {
+		ng := normGuard(g)
+		ex, ok := ng.Cond.(*ssa.Extract)
+		if !ok || ex.Index != 1 || ng.Pol {
+			continue
+		}
+		ta, ok := ex.Tuple.(*ssa.TypeAssert)
+		if !ok || ta.X != v {
+			continue
+		}
+		if isMapShaped(ta.AssertedType) {
+			notMap = true
+		}
+		if sl, ok := ta.AssertedType.Underlying().(*types.Slice); ok && isIfaceType(sl.Elem()) {
+			notList = true
+		}
+	}
+	return notMap && notList
+}
 func (a *ptsTo) load(dst, src int)  { a.loadE = append(a.loadE, [2]int{dst, src}) }
 func (a *ptsTo) store(dst, src int) { a.storeE = append(a.storeE, [2]int{dst, src}) }
 
@@ -423,7 +468,11 @@ func (a *ptsTo) genInstr(f *ssa.Function, in ssa.Instruction) {
 		res := a.results[f]
 		for i, rv := range x.Results {
 			if i < len(res) && hasPtr(rv.Type()) && !isNilConst(rv) {
-				a.copy(res[i], a.node(rv))
+				if notContainerAt(rv, x.Block()) {
+					a.fcopy(res[i], a.node(rv)) // scalar arm of a type switch: no container can be returned here
+				} else {
+					a.copy(res[i], a.node(rv))
+				}
 			}
 		}
 	case *ssa.Send:
@@ -792,6 +841,13 @@ func (a *ptsTo) solve() {
 			if a.pts[e[0]].union(a.pts[e[1]]) {
 				changed = true
 			}
+		}
+		for _, e := range a.fcopyE {
+			a.pts[e[1]].each(func(o objID) {
+				if !a.isContainerObj(o) && a.addObj(e[0], o) {
+					changed = true
+				}
+			})
 		}
 		for _, e := range a.loadE {
 			a.pts[e[1]].each(func(o objID) {
